@@ -67,4 +67,48 @@ def holds (p : Packet) (o : Obs) : Bool :=
 /-- the predicate the driver evaluates: nothing is demanded of ill-formed descriptions -/
 def pred (p : Packet) (o : Obs) : Bool := !wfP p || holds p o
 
+/-! ### in-place unwrapping (kind `c01.inplace`): the bytes handed to Unmarshal are (a window of)
+    the receiver's own current `Payload` -/
+
+structure InplaceIn where
+  inner : Packet
+  outer : Packet        -- its payload is replaced by Marshal(inner)
+  prev  : Bytes         -- what the receiver decoded before
+  mode  : Nat           -- 0: decode Marshal(outer), then `recv.Unmarshal(recv.Payload)`;
+                        -- 1: `recv.Payload = buf` set by hand, then `recv.Unmarshal(buf)`
+  deriving DecidableEq, Repr, Inhabited
+
+/-- the outer packet carrying `ib` -/
+def wrap (outer : Packet) (ib : Bytes) : Packet := { outer with payload := ib }
+
+/-- (the receiver after the outer decode, the receiver after the in-place decode), canonical.
+    The model's answer is its Unmarshal-into-a-used-receiver applied to the receiver's payload:
+    where the bytes live makes no difference to a value. -/
+def inplaceModel (x : InplaceIn) : Res Packet × Res Packet :=
+  let dirty : Packet := match pktUnmarshal {} x.prev with | .ok q => q | _ => {}
+  match pktMarshal x.inner with
+  | .ok ib =>
+    if x.mode == 1 then (.err .other, (pktUnmarshal { dirty with payload := ib } ib).map canonP)
+    else match pktMarshal (wrap x.outer ib) with
+      | .ok ob =>
+        match pktUnmarshal dirty ob with
+        | .ok r1 => (.ok (canonP r1), (pktUnmarshal r1 r1.payload).map canonP)
+        | .err e => (.err e, .err .other)
+        | .panic => (.panic, .err .other)
+      | _ => (.err .other, .err .other)
+  | _ => (.err .other, .err .other)
+
+/-- C01 for the nesting: the outer decode shows the outer packet carrying Marshal(inner), the
+    in-place decode shows `inner` -/
+def inplaceHolds (x : InplaceIn) (o : Res Packet × Res Packet) : Bool :=
+  match pktMarshal x.inner with
+  | .ok ib =>
+    o.2 == .ok (canonP x.inner) &&
+    (if x.mode == 1 then o.1 == .err .other else o.1 == .ok (canonP (wrap x.outer ib)))
+  | _ => false
+
+def inplaceWf (x : InplaceIn) : Bool := wfP x.inner && (x.mode == 1 || wfP x.outer)
+
+def inplacePred (x : InplaceIn) (o : Res Packet × Res Packet) : Bool := !inplaceWf x || inplaceHolds x o
+
 end Rtp.Pred.C01
